@@ -17,6 +17,7 @@ CONSTANTS
   UseWindow = TRUE
   UseReopen = FALSE
   UseEpochs = FALSE
+  OccSet = {FALSE, TRUE}
   UseReaders = FALSE
 INVARIANTS CTypeOK C01_Ordered SegsConsistent NoEmptyInnerSegment
 PROPERTIES StepsOK
